@@ -122,3 +122,68 @@ for _shape in ('vector', 'block'):
             ctx.prove(f'shape[{trans}]', len(x.shape) == len(bsh) and all(V.cmp('==', p, q) is True for p, q in zip(x.shape, bsh)))
             dd = V.conj(d) if trans == 'H' else d
             ctx.prove(f'solves[{trans}]', V.cmp('==', V.mul(x.at(*idx), dd), b.at(*idx)))
+
+
+# ------------------------------------------------------------------------------------------------ solver selection
+import itertools as _it   # noqa: E402
+import numpy as _np   # noqa: E402
+from pvc.values import Cx as _Cx   # noqa: E402
+
+AD = 'pymoto.solvers.auto_determine:auto_determine_solver'
+MCK = 'pymoto.solvers.matrix_checks'
+
+for _cplx, _herm, _sym, _diag in _it.product((False, True), (False, True), (False, True), (False, True)):
+    if (not _cplx and _herm != _sym):
+        continue
+    @harness(P, f'auto_determine_solver.dense[complex={_cplx},hermitian={_herm},symmetric={_sym},diagonal={_diag}]', targets=[AD], timeout=20000)
+    def h_auto(ctx, it, cplx=_cplx, herm=_herm, sym=_sym, diag=_diag):
+        """decision table (dense, square): the solver that is returned is one whose contract (proved above) covers the class of the matrix, with the
+        class flag it is constructed with equal to the class of the matrix: diagonal -> SolverDiagonal; Hermitian with a one-signed diagonal ->
+        Cholesky (which falls back to LDL by itself); Hermitian otherwise -> LDL(hermitian=True); complex symmetric, not Hermitian ->
+        LDL(hermitian=False); anything else -> LU.  The class tests of the matrix are used through their contracts (summaries); the sign of the
+        diagonal is a complete case split on symbolic entries"""
+        n = 2
+        d = _np.empty((n, n), dtype=object)
+        for i in range(n):
+            for j in range(n):
+                re_ = ctx.sym(f'a{i}{j}', 'real')
+                d[i, j] = _Cx(re_, ctx.sym(f'a{i}{j}i', 'real')) if cplx else re_
+        if herm and cplx:
+            for i in range(n):
+                d[i, i] = d[i, i].re           # a Hermitian matrix has a real diagonal (comparison with 0 is what the code does)
+        A = CArr(d, 'complex' if cplx else 'real')
+        it.summaries[f'{MCK}:matrix_is_sparse'] = lambda itp, a, k: False
+        it.summaries[f'{MCK}:matrix_is_diagonal'] = lambda itp, a, k: diag
+        it.summaries[f'{MCK}:matrix_is_hermitian'] = lambda itp, a, k: herm
+        it.summaries[f'{MCK}:matrix_is_symmetric'] = lambda itp, a, k: sym
+        ctx.safety_on = False
+        # triangularity is only reported (no special solver): pass the detected value explicitly, as LinSolve's callers may
+        s = it.call(it.get_function(AD), [A], dict(islowertriangular=False, isuppertriangular=False))
+        cls = s.cls.name
+        if diag:
+            ctx.prove('diagonal_solver', cls == 'SolverDiagonal')
+            return
+        dg = [d[i, i].re if isinstance(d[i, i], _Cx) else d[i, i] for i in range(n)]
+        pos = z3.And(*[V.zreal(x) > 0 for x in dg])
+        neg = z3.And(*[V.zreal(x) < 0 for x in dg])
+        one_signed = ctx.implied(z3.Or(pos, neg))
+        mixed = ctx.implied(z3.Not(z3.Or(pos, neg)))
+        if herm:
+            ctx.prove('hermitian.path_decides_diagonal_sign', one_signed or mixed)
+            if one_signed:
+                ctx.prove('hermitian.one_signed_diagonal.cholesky', cls == 'SolverDenseCholesky')
+            else:
+                ctx.prove('hermitian.mixed_diagonal.ldl_hermitian', cls == 'SolverDenseLDL' and it.getattr(s, 'hermitian') is True)
+        elif sym:
+            ctx.prove('complex_symmetric.ldl_not_hermitian', cls == 'SolverDenseLDL' and it.getattr(s, 'hermitian') is False)
+        else:
+            ctx.prove('general.lu', cls == 'SolverDenseLU')
+
+
+@harness(P, 'auto_determine_solver.non_square', targets=[AD])
+def h_auto_rect(ctx, it):
+    """a non-square matrix gets the QR solver (least squares), whatever its other properties"""
+    it.summaries[f'{MCK}:matrix_is_sparse'] = lambda itp, a, k: False
+    A = CArr(_np.array([[ctx.sym(f'a{i}{j}', 'real') for j in range(2)] for i in range(3)], dtype=object), 'real')
+    s = it.call(it.get_function(AD), [A])
+    ctx.prove('qr', s.cls.name == 'SolverDenseQR')
